@@ -340,6 +340,29 @@ def with_form_overwidth(chk):
             f.hook.remove_function(f)
 
 
+def near_widths_same_pass(chk):
+    """one pass object solved with two width prescriptions that differ by less than a tenth of a millimetre: each solve delivers exactly its own width"""
+    from pyroll.core import Roll, RollPass, Profile, CircularOvalGroove
+    g = CircularOvalGroove(depth=8e-3, r1=6e-3, r2=40e-3)
+    fs = RollPass.Profile.flow_stress(lambda self: 50e6)
+    want = {'w': None}
+    model = RollPass.OutProfile.width(lambda self, cycle: None if cycle else want['w'])
+    try:
+        rp = RollPass(label="p", roll=Roll(groove=g, nominal_radius=160e-3, rotational_frequency=1), gap=2e-3)
+        base = 0.9 * g.usable_width
+        for w in (base, base + 4e-5, base - 2.5e-5, base + 9e-5, base):
+            want['w'] = w
+            out = rp.solve(Profile.round(diameter=30e-3, temperature=1473.15, strain=0, material="C45", length=1))
+            got = out.cross_section.bounds[2] - out.cross_section.bounds[0]
+            chk.cov['evaluations'] += 1
+            if abs(got - w) > 1e-12:
+                return chk.fail('width', f"one oval pass object solved with width prescriptions a few hundredths of a millimetre apart: prescribed {w!r}, the outgoing "
+                                f"profile is {got!r} wide", {'prescribed': w, 'history': 'prescriptions 0.04 mm apart on one pass object'})
+    finally:
+        model.hook.remove_function(model)
+        fs.hook.remove_function(fs)
+
+
 def plugin_wrapper_on_base(chk):
     """a plug-in's pass-through wrapper (an observer of the width, registered on BaseRollPass.OutProfile) around width models registered on the concrete pass
     classes: the prescribed width stays the prescribed width, too wide a prescription is still refused"""
@@ -485,6 +508,8 @@ def run(chk):
         with_form_overwidth(chk)
     if not chk.failures:
         plugin_wrapper_on_base(chk)
+    if not chk.failures:
+        near_widths_same_pass(chk)
     if not chk.failures:
         observed_in_profile(chk)
     if not chk.failures:
